@@ -37,7 +37,7 @@ example : decode .data (encode ⟨0, 0, 0⟩ (.ack 1 2)) = .err .wrongSize ∧
     decode .buttonReleased (encode ⟨0, 0, 0⟩ (.buttonPressed 1 2 3)) = .err .wrongEventType := by decide
 
 /-- **C12 about the decoders as they read now** (`Src.decodeK`: `try_from_packet` translated from `src/event/*.rs` on
-every run, fourteen kinds; the data and message decoders are the model's): no packet is accepted by the decoders of two
+every run, fifteen kinds; the message decoder is the model's): no packet is accepted by the decoders of two
 kinds, and the encoding of an event of one kind is rejected by every other kind's translated decoder -/
 theorem C12_src_decode_unique (k₁ k₂ : Kind) (p : Packet) (e₁ e₂ : Event)
     (h₁ : Src.decodeK k₁ p = .ok e₁) (h₂ : Src.decodeK k₂ p = .ok e₂) : k₁ = k₂ :=
